@@ -24,6 +24,37 @@
 #include <ascon/utility.h>
 #include "masking/ascon-masked-state.h"
 
+#ifdef IRPASS
+/* second pass: the free functions are the clang -O3 IR of the same sources, translated by enc/llvm */
+void ir_ascon_free(uint8_t *);
+void ir_ascon128_aead_free(uint8_t *);
+void ir_ascon128a_aead_free(uint8_t *);
+void ir_ascon80pq_aead_free(uint8_t *);
+void ir_ascon_xof_free(uint8_t *);
+void ir_ascon_xofa_free(uint8_t *);
+void ir_ascon_hash_free(uint8_t *);
+void ir_ascon_hasha_free(uint8_t *);
+void ir_ascon_prf_free(uint8_t *);
+void ir_ascon_hmac_free(uint8_t *);
+void ir_ascon_hmaca_free(uint8_t *);
+void ir_ascon_kmac_free(uint8_t *);
+void ir_ascon_kmaca_free(uint8_t *);
+void ir_ascon_kdf_free(uint8_t *);
+void ir_ascon_kdfa_free(uint8_t *);
+void ir_ascon_hkdf_free(uint8_t *);
+void ir_ascon_hkdfa_free(uint8_t *);
+void ir_ascon_random_free(uint8_t *);
+void ir_ascon128a_isap_aead_free(uint8_t *);
+void ir_ascon128_isap_aead_free(uint8_t *);
+void ir_ascon80pq_isap_aead_free(uint8_t *);
+void ir_ascon_masked_key_128_free(uint8_t *);
+void ir_ascon_masked_key_160_free(uint8_t *);
+void ir_ascon_masked_state_free(uint8_t *);
+#define FREE(fn, obj) ir_##fn((uint8_t *)&(obj))
+#else
+#define FREE(fn, obj) fn(&(obj))
+#endif
+
 static int zero_bytes(const void *p, size_t n)
 {
     const unsigned char *b = (const unsigned char *)p; size_t i; int z = 1;
@@ -38,53 +69,53 @@ void harness(void)
 {
     int ok = 0;
 #if OBJ == 0
-    ascon_state_t s; ARB(s); ascon_free(&s); ok = ZST(s);
+    ascon_state_t s; ARB(s); FREE(ascon_free, s); ok = ZST(s);
 #elif OBJ == 1
-    ascon128_state_t s; ARB(s); ascon128_aead_free(&s); ok = ZST(s.state) && zero_bytes(s.key, sizeof(s.key)) && zero_bytes(s.nonce, 16) && s.posn == 0;
+    ascon128_state_t s; ARB(s); FREE(ascon128_aead_free, s); ok = ZST(s.state) && zero_bytes(s.key, sizeof(s.key)) && zero_bytes(s.nonce, 16) && s.posn == 0;
 #elif OBJ == 2
-    ascon128a_state_t s; ARB(s); ascon128a_aead_free(&s); ok = ZST(s.state) && zero_bytes(s.key, sizeof(s.key)) && zero_bytes(s.nonce, 16) && s.posn == 0;
+    ascon128a_state_t s; ARB(s); FREE(ascon128a_aead_free, s); ok = ZST(s.state) && zero_bytes(s.key, sizeof(s.key)) && zero_bytes(s.nonce, 16) && s.posn == 0;
 #elif OBJ == 3
-    ascon80pq_state_t s; ARB(s); ascon80pq_aead_free(&s); ok = ZST(s.state) && zero_bytes(s.key, sizeof(s.key)) && zero_bytes(s.nonce, 16) && s.posn == 0;
+    ascon80pq_state_t s; ARB(s); FREE(ascon80pq_aead_free, s); ok = ZST(s.state) && zero_bytes(s.key, sizeof(s.key)) && zero_bytes(s.nonce, 16) && s.posn == 0;
 #elif OBJ == 4
-    ascon_xof_state_t s; ARB(s); ascon_xof_free(&s); ok = ZXOF(s);
+    ascon_xof_state_t s; ARB(s); FREE(ascon_xof_free, s); ok = ZXOF(s);
 #elif OBJ == 5
-    ascon_xofa_state_t s; ARB(s); ascon_xofa_free(&s); ok = ZXOF(s);
+    ascon_xofa_state_t s; ARB(s); FREE(ascon_xofa_free, s); ok = ZXOF(s);
 #elif OBJ == 6
-    ascon_hash_state_t s; ARB(s); ascon_hash_free(&s); ok = ZXOF(s.xof);
+    ascon_hash_state_t s; ARB(s); FREE(ascon_hash_free, s); ok = ZXOF(s.xof);
 #elif OBJ == 7
-    ascon_hasha_state_t s; ARB(s); ascon_hasha_free(&s); ok = ZXOF(s.xof);
+    ascon_hasha_state_t s; ARB(s); FREE(ascon_hasha_free, s); ok = ZXOF(s.xof);
 #elif OBJ == 8
-    ascon_prf_state_t s; ARB(s); ascon_prf_free(&s); ok = ZXOF(s);
+    ascon_prf_state_t s; ARB(s); FREE(ascon_prf_free, s); ok = ZXOF(s);
 #elif OBJ == 9
-    ascon_hmac_state_t s; ARB(s); ascon_hmac_free(&s); ok = ZXOF(s.hash.xof);
+    ascon_hmac_state_t s; ARB(s); FREE(ascon_hmac_free, s); ok = ZXOF(s.hash.xof);
 #elif OBJ == 10
-    ascon_hmaca_state_t s; ARB(s); ascon_hmaca_free(&s); ok = ZXOF(s.hash.xof);
+    ascon_hmaca_state_t s; ARB(s); FREE(ascon_hmaca_free, s); ok = ZXOF(s.hash.xof);
 #elif OBJ == 11
-    ascon_kmac_state_t s; ARB(s); ascon_kmac_free(&s); ok = ZXOF(s.xof);
+    ascon_kmac_state_t s; ARB(s); FREE(ascon_kmac_free, s); ok = ZXOF(s.xof);
 #elif OBJ == 12
-    ascon_kmaca_state_t s; ARB(s); ascon_kmaca_free(&s); ok = ZXOF(s.xof);
+    ascon_kmaca_state_t s; ARB(s); FREE(ascon_kmaca_free, s); ok = ZXOF(s.xof);
 #elif OBJ == 13
-    ascon_kdf_state_t s; ARB(s); ascon_kdf_free(&s); ok = ZXOF(s.state);
+    ascon_kdf_state_t s; ARB(s); FREE(ascon_kdf_free, s); ok = ZXOF(s.state);
 #elif OBJ == 14
-    ascon_kdfa_state_t s; ARB(s); ascon_kdfa_free(&s); ok = ZXOF(s.state);
+    ascon_kdfa_state_t s; ARB(s); FREE(ascon_kdfa_free, s); ok = ZXOF(s.state);
 #elif OBJ == 15
-    ascon_hkdf_state_t s; ARB(s); ascon_hkdf_free(&s); ok = zero_bytes(s.prk, 32) && zero_bytes(s.out, 32) && s.counter == 0 && s.posn == 0;
+    ascon_hkdf_state_t s; ARB(s); FREE(ascon_hkdf_free, s); ok = zero_bytes(s.prk, 32) && zero_bytes(s.out, 32) && s.counter == 0 && s.posn == 0;
 #elif OBJ == 16
-    ascon_hkdfa_state_t s; ARB(s); ascon_hkdfa_free(&s); ok = zero_bytes(s.prk, 32) && zero_bytes(s.out, 32) && s.counter == 0 && s.posn == 0;
+    ascon_hkdfa_state_t s; ARB(s); FREE(ascon_hkdfa_free, s); ok = zero_bytes(s.prk, 32) && zero_bytes(s.out, 32) && s.counter == 0 && s.posn == 0;
 #elif OBJ == 17
-    ascon_random_state_t s; ARB(s); ascon_random_free(&s); ok = ZXOF(s.xof) && s.counter == 0;
+    ascon_random_state_t s; ARB(s); FREE(ascon_random_free, s); ok = ZXOF(s.xof) && s.counter == 0;
 #elif OBJ == 18
-    ascon128a_isap_aead_key_t s; ARB(s); ascon128a_isap_aead_free(&s); ok = ZST(s.ke) && ZST(s.ka);
+    ascon128a_isap_aead_key_t s; ARB(s); FREE(ascon128a_isap_aead_free, s); ok = ZST(s.ke) && ZST(s.ka);
 #elif OBJ == 19
-    ascon128_isap_aead_key_t s; ARB(s); ascon128_isap_aead_free(&s); ok = ZST(s.ke) && ZST(s.ka);
+    ascon128_isap_aead_key_t s; ARB(s); FREE(ascon128_isap_aead_free, s); ok = ZST(s.ke) && ZST(s.ka);
 #elif OBJ == 20
-    ascon80pq_isap_aead_key_t s; ARB(s); ascon80pq_isap_aead_free(&s); ok = ZST(s.ke) && ZST(s.ka);
+    ascon80pq_isap_aead_key_t s; ARB(s); FREE(ascon80pq_isap_aead_free, s); ok = ZST(s.ke) && ZST(s.ka);
 #elif OBJ == 21
-    ascon_masked_key_128_t s; ARB(s); ascon_masked_key_128_free(&s); ok = zero_bytes(&s, sizeof(s));
+    ascon_masked_key_128_t s; ARB(s); FREE(ascon_masked_key_128_free, s); ok = zero_bytes(&s, sizeof(s));
 #elif OBJ == 22
-    ascon_masked_key_160_t s; ARB(s); ascon_masked_key_160_free(&s); ok = zero_bytes(&s, sizeof(s));
+    ascon_masked_key_160_t s; ARB(s); FREE(ascon_masked_key_160_free, s); ok = zero_bytes(&s, sizeof(s));
 #elif OBJ == 23
-    ascon_masked_state_t s; ARB(s); ascon_masked_state_free(&s); ok = zero_bytes(&s, sizeof(s));
+    ascon_masked_state_t s; ARB(s); FREE(ascon_masked_state_free, s); ok = zero_bytes(&s, sizeof(s));
 #elif OBJ == 24
     unsigned char b[NBYTES > 0 ? NBYTES : 1], guard = nondet_uchar(), g0 = guard;
     vh_sym_bytes(b, NBYTES); ascon_clean(b, NBYTES); ok = zero_bytes(b, NBYTES) && guard == g0;
